@@ -17,7 +17,7 @@ META = {
     "level": "exploration",
     "rule": ("case = module-rooted builder program (JSON AST, + optional metadata / order links); distinct by JSON; "
              "non-trivial as for C01"),
-    "required": ["monitor:binding-contract", "monitor:shadow-read", "monitor:M-HIER", "monitor:M-PORTS",
+    "required": ["monitor:repo-test-documents", "monitor:binding-contract", "monitor:shadow-read", "monitor:M-HIER", "monitor:M-PORTS",
                  "monitor:M-LINK", "monitor:M-SYM", "monitor:M-CONST", "monitor:M-ORDER", "monitor:M-META", "monitor:M-SIG", "monitor:M-FUNC-BODY",
                  "feature:const-loaded-again", "feature:function-constant",
                  "feature:call", "feature:order-link", "feature:cfg", "feature:conditional", "feature:metadata",
@@ -674,6 +674,15 @@ def run(ctx):
         from vf import env
 
         reads, _, _ = parse_binding((env.REPO / "hugr-model" / "src" / "v0" / "ast" / "python.rs").read_text())
+    if ctx.shard == 1 % ctx.nshards:
+        from vf.repo_corpus import documents
+
+        for c in documents():
+            if c["doc"]["nodes"][0]["op"] != "Module":
+                continue
+            ctx.count("monitor:repo-test-documents")
+            ctx.guard("repo-doc", c, check_case, ctx, c, reads, "repo-doc")
+            ctx.case("repo-doc", c, len(c["doc"]["nodes"]) >= 6)
     for i in ctx.mine(ctx.n(1500, 50000)):
         r = ctx.rng("program", i)
         case = {"prog": gen_program(r, kind="module", budget=30, force=("rowpoly-call",) if i % 6 == 0 else ())}
